@@ -119,6 +119,7 @@ fn drive(spec: &ExchangeSpec, s: &mut Sched, follow: Option<RedirectAuthHeaders>
                                             payload: if is_head { vec![] } else { b"ok".to_vec() },
                                             close_delimited: false,
                                         },
+                                        prep: 0,
                                     };
                                     let stream2 = spec2.stream();
                                     let mut s2 = Sched::canonical();
@@ -224,6 +225,7 @@ fn exec_menu(t: &mut Tape, st: &mut Stats) -> Result<(), String> {
             }
         }
     }
+    let prep = ((status as usize + framing + behaviour) % 3) as u8;
     let spec = ExchangeSpec {
         method,
         req_v10,
@@ -237,6 +239,7 @@ fn exec_menu(t: &mut Tape, st: &mut Stats) -> Result<(), String> {
         await_mode,
         server_pre,
         resp: RespSpec { head: RespHead { v11: resp_v11, status, reason: Some(b"R".to_vec()), fields }, body_wire, payload, close_delimited },
+        prep: prep,
     };
     st.describe(|| spec_json(&spec));
     let mut s = Sched::canonical();
